@@ -46,6 +46,10 @@ def gen_net(rng, ia_start: bool = False) -> dict:  # noqa: ANN001
     b = rng.choice([0.5, 1.0, 2.0])
     inhib = rng.random() < 0.4
     p = {"kin": round(rng.uniform(0.5, 2.0), 3), "k1": round(rng.uniform(0.5, 2.0), 3), "k2": round(rng.uniform(0.5, 2.0), 3), "a": a, "b": b}
+    if not ia_start and a >= 1.0 and b >= 1.0 and rng.random() < 0.5:
+        # a network with a small throughput (fluxes of order 1e-3); kinetic orders below one are left out: their steady
+        # states lie at 1e-6 next to a square-root singularity, where the search itself fails (a visible failure, not a result)
+        p["kin"] = round(p["kin"] * 1e-3, 6)
     comps = [{"kind": "parameter", "name": k, "value": v} for k, v in p.items()]
     derived_k1 = not ia_start and rng.random() < 0.4
     if derived_k1:
@@ -247,6 +251,11 @@ def run_case(case: dict) -> dict:
             rv, rf = response_moiety(p, sum((st or net["y0"]).values()), normalized)
             counters["response:conserved_moiety" + ("(start state given)" if given else "")] = 1
         else:
+            if (given and rng.random() < 0.5) or p["kin"] < 0.01:
+                # the analysis is started at the reference steady state itself (the usual way to call it)
+                given = True
+                st = steady(p, inhib)
+                counters["response:started_at_the_reference_steady_state" + ("(small throughput)" if p["kin"] < 0.01 else "")] = 1
             rv, rf = response(p, inhib, normalized)
         results = {}
         for mode, kw in (("sequential", {"parallel": False}), ("parallel", {"parallel": True, "max_workers": rng.choice([1, 2, 16])})):
